@@ -60,10 +60,19 @@ func main() {
 		if err != nil {
 			fatal(err)
 		}
-		defer outf.Close()
 	}
 	w := bufio.NewWriterSize(outf, 1<<20)
-	defer w.Flush()
+	finish := func() {
+		// a trace that could not be written completely must never look like a shorter, valid one
+		if err := w.Flush(); err != nil {
+			fatal(fmt.Errorf("writing the trace: %v", err))
+		}
+		if outf != os.Stdout {
+			if err := outf.Close(); err != nil {
+				fatal(fmt.Errorf("closing the trace: %v", err))
+			}
+		}
+	}
 
 	bytesMode = *flagBytes
 	facets := map[string]bool{}
@@ -77,9 +86,11 @@ func main() {
 	case "scenario":
 	case "registry":
 		runRegistryMode(in, w)
+		finish()
 		return
 	case "conc":
 		runConcMode(in, w, facets)
+		finish()
 		return
 	default:
 		fatal(fmt.Errorf("unknown mode %q", *flagMode))
@@ -117,9 +128,13 @@ func main() {
 		if !*flagChild && touchesRegistry(ops) {
 			// the decoration registry is process-global and only grows: a scenario
 			// that registers names runs in a process of its own
-			w.Flush()
-			runIsolated(outf, id, ops)
+			if err := w.Flush(); err != nil {
+				fatal(fmt.Errorf("writing the trace: %v", err))
+			}
+			cst := runIsolated(outf, id, ops)
 			nops += len(ops)
+			faultRuns += cst.FaultRuns
+			renderCalls += cst.Renders
 			continue
 		}
 		runScenario(w, id, ops, facets, *flagEvery, sub)
@@ -132,6 +147,7 @@ func main() {
 	stats["ops"] = nops
 	stats["faultruns"] = faultRuns
 	stats["renders"] = renderCalls
+	finish()
 	b, _ := json.Marshal(stats)
 	fmt.Fprintf(os.Stderr, "vdrive: %s\n", b)
 }
@@ -149,14 +165,23 @@ func touchesRegistry(ops []M) bool {
 }
 
 // runIsolated re-executes this binary for one scenario and copies its trace.
-func runIsolated(out *os.File, id string, ops []M) {
+type childStats struct {
+	FaultRuns int `json:"faultruns"`
+	Renders   int `json:"renders"`
+}
+
+func runIsolated(out *os.File, id string, ops []M) childStats {
 	b, err := json.Marshal(M{"id": id, "ops": ops})
 	if err != nil {
 		fatal(err)
 	}
-	args := []string{"-child", "-in", "-", "-facets", *flagFacets}
+	// (the final/swapfinal rewriting has been applied to ops already; the substitution is seeded by the id)
+	args := []string{"-child", "-in", "-", "-facets", *flagFacets, "-subst", fmt.Sprint(*flagSubst), "-pool", *flagPool}
 	if *flagEvery {
 		args = append(args, "-every")
+	}
+	if *flagBytes {
+		args = append(args, "-bytes")
 	}
 	cmd := exec.Command(os.Args[0], args...)
 	cmd.Stdin = bytes.NewReader(append(b, '\n'))
@@ -166,6 +191,11 @@ func runIsolated(out *os.File, id string, ops []M) {
 	if err := cmd.Run(); err != nil {
 		fatal(fmt.Errorf("isolated scenario %s: %v: %s", id, err, eb.String()))
 	}
+	var cst childStats
+	if i := strings.LastIndex(eb.String(), "vdrive: {"); i >= 0 {
+		json.Unmarshal([]byte(strings.TrimSpace(eb.String()[i+8:])), &cst)
+	}
+	return cst
 }
 
 func fatal(err error) {
